@@ -290,20 +290,20 @@ theorem shape_gen (O : Oracle) : ∀ (t : Ty) (orig : Option String) (v : Val),
     rename_i xs
     rw [list_isOk O orig t (.list xs) xs rfl, List.all_eq_true]
     intro x hx
-    exact shape_gen O t .none x ((confLAll_iff _ _ t xs).mp hc x hx) (by simpa [setSafe] using hs)
+    exact shape_gen O t .none x (hc x hx) (by simpa [setSafe] using hs)
   | .tupleVar t, orig, v, hc, hs => by
     cases v <;> simp [conf, confL] at hc
     rename_i xs
     rw [tupleVar_isOk O orig t (.tuple xs) xs rfl, List.all_eq_true]
     intro x hx
-    exact shape_gen O t .none x ((confLAll_iff _ _ t xs).mp hc x hx) (by simpa [setSafe] using hs)
+    exact shape_gen O t .none x (hc x hx) (by simpa [setSafe] using hs)
   | .set t, orig, v, hc, hs => by
     cases v <;> simp [conf, confL] at hc
     rename_i xs
     simp only [setSafe, Bool.and_eq_true] at hs
     rw [set_isOk_hashTy O orig t (.set xs) xs rfl hs.1, List.all_eq_true]
     intro x hx
-    exact shape_gen O t .none x ((confLAll_iff _ _ t xs).mp hc x hx) hs.2
+    exact shape_gen O t .none x (hc x hx) hs.2
   | .tuple ts, orig, v, hc, hs => by
     cases v <;> simp [conf, confL] at hc
     rename_i xs
@@ -317,7 +317,7 @@ theorem shape_gen (O : Oracle) : ∀ (t : Ty) (orig : Option String) (v : Val),
   | .dict k t, orig, v, hc, hs => by
     cases v <;> simp [conf, confL] at hc
     rename_i kvs
-    have hkv := (confLKvs_iff false false k t kvs).mp hc
+    have hkv : ∀ kv ∈ kvs, DKey.conf k kv.1 = true ∧ confL false false t kv.2 = true := fun kv hm => hc kv.1 kv.2 hm
     have hs' : setSafe t = true := by simpa [setSafe] using hs
     cases k with
     | str =>
